@@ -191,6 +191,40 @@ Proof.
   - intros l0 NC. rewrite nth_error_set_nth. destruct (Nat.eqb_spec l0 l); [subst; congruence | reflexivity].
 Qed.
 
+Lemma cfg_od_del_in : forall {V} (d : od V) k k' v, In (k', v) (od_del d k) -> In (k', v) d.
+Proof.
+  induction d as [|[k0 v0] t IH]; intros k k' v I; [exact I|]. cbn in I.
+  destruct (k0 =? k); [right; exact I|]. destruct I as [I|I]; [left; exact I | right; eapply IH; eauto].
+Qed.
+
+Lemma cfg_od_del_nodup : forall {V} (d : od V) k, NoDup (od_keys d) -> NoDup (od_keys (od_del d k)).
+Proof.
+  unfold od_keys. induction d as [|[k0 v0] t IH]; intros k N; [exact N|]. cbn in *.
+  inversion N as [|? ? Nk Nt]; subst. destruct (k0 =? k); [exact Nt|]. cbn. constructor.
+  - intros X. apply Nk. apply in_map_iff in X. destruct X as ([k1 v1] & E1 & I1). cbn in E1; subst.
+    apply in_map_iff. exists (k0, v1). split; [reflexivity | eapply cfg_od_del_in; eauto].
+  - apply IH; exact Nt.
+Qed.
+
+Lemma del_path_sinv : forall st col r path k st' x,
+  sinv st col -> (r < length st)%nat -> del_path st r path k = (st', x) ->
+  sinv st' col /\ length st' = length st
+  /\ (forall l, col l <> col r -> nth_error st' l = nth_error st l).
+Proof.
+  intros st col r path k st' x S Hr E. unfold del_path in E.
+  destruct (walk st r path) as [l|e] eqn:Ew; [|inversion E; subst; auto].
+  destruct (nth_error st l) as [nd|] eqn:En; [|inversion E; subst; auto].
+  destruct (od_mem nd k); [|inversion E; subst; auto].
+  inversion E; subst st' x. clear E.
+  destruct (walk_col _ _ _ _ _ S Hr Ew) as [Hl Cl].
+  split; [|split; [apply length_set_nth|]].
+  - intros l0 nd0 X k0 r0 I. rewrite length_set_nth. rewrite nth_error_set_nth in X.
+    destruct (Nat.eqb_spec l0 l).
+    + subst l0. rewrite En in X. inversion X; subst nd0. apply cfg_od_del_in in I. eapply S; eauto.
+    + eapply S; eauto.
+  - intros l0 NC. rewrite nth_error_set_nth. destruct (Nat.eqb_spec l0 l); [subst; congruence | reflexivity].
+Qed.
+
 Lemma set_path_atom : forall st col r path k a st' x,
   sinv st col -> (r < length st)%nat -> set_path st r path k (VAtom a) = (st', x) ->
   sinv st' col /\ length st' = length st
@@ -223,8 +257,8 @@ Qed.
 Lemma cfg_apply_ok : forall st col r m st' x,
   sinv st col -> (r < length st)%nat -> cfg_apply st r m = (st', x) -> mut_ok st col r st'.
 Proof.
-  intros st col r m st' x S Hr E. destruct m as [| |f|a e l t|n|absv|path k v]; cbn [cfg_apply] in E;
-    try (eapply set_path_atom; eauto; fail).
+  intros st col r m st' x S Hr E. destruct m as [| |f|a e l t|n|absv|path k v|path k]; cbn [cfg_apply] in E;
+    try (eapply set_path_atom; eauto; fail); try (eapply del_path_sinv; eauto; fail).
   - destruct (set_unit st r k_angle (umap cfg_units_angle_val a)) as [st1 [u1|e1]] eqn:E1;
       pose proof (set_unit_ok _ _ _ _ _ _ _ S Hr E1) as M1; [|inversion E; subst; exact M1].
     pose proof M1 as (S1 & L1 & F1). assert (Hr1 : (r < length st1)%nat) by lia.
@@ -764,6 +798,15 @@ Proof.
   inversion E; subst. apply knodup_set_nth; [exact K|]. apply od_keys_set_nodup. eapply K; eauto.
 Qed.
 
+Lemma del_path_kn : forall st r path k st' x, knodup st -> del_path st r path k = (st', x) -> knodup st'.
+Proof.
+  intros st r path k st' x K E. unfold del_path in E.
+  destruct (walk st r path) as [l|e]; [|inversion E; subst; exact K].
+  destruct (nth_error st l) as [nd|] eqn:En; [|inversion E; subst; exact K].
+  destruct (od_mem nd k); [|inversion E; subst; exact K].
+  inversion E; subst. apply knodup_set_nth; [exact K|]. apply cfg_od_del_nodup. eapply K; eauto.
+Qed.
+
 Lemma set_unit_kn : forall st r key u st' x, knodup st -> set_unit st r key u = (st', x) -> knodup st'.
 Proof.
   intros st r key [[[|] v]|] st' x K E; cbn in E; try (inversion E; subst; exact K).
@@ -772,8 +815,8 @@ Qed.
 
 Lemma cfg_apply_kn : forall st r m st' x, knodup st -> cfg_apply st r m = (st', x) -> knodup st'.
 Proof.
-  intros st r m st' x K E. destruct m as [| |f|a e l t|n|absv|path k v]; cbn [cfg_apply] in E;
-    try (eapply set_path_kn; eauto; fail).
+  intros st r m st' x K E. destruct m as [| |f|a e l t|n|absv|path k v|path k]; cbn [cfg_apply] in E;
+    try (eapply set_path_kn; eauto; fail); try (eapply del_path_kn; eauto; fail).
   - destruct (set_unit st r k_angle (umap cfg_units_angle_val a)) as [st1 [u1|e1]] eqn:E1;
       pose proof (set_unit_kn _ _ _ _ _ _ K E1) as K1; [|inversion E; subst; exact K1].
     destruct (set_unit st1 r k_energy (umap cfg_units_energy_val e)) as [st2 [u2|e2]] eqn:E2;
